@@ -31,10 +31,10 @@ class FakeTimeModule:
         return t
 
     def monotonic(self):
-        return self._sim.time()
+        return self._sim.monotonic()
 
     def perf_counter(self):
-        return self._sim.time()
+        return self._sim.monotonic()
 
     def sleep(self, d):
         self._sim.sleep(d)
@@ -72,6 +72,7 @@ class LockWorld:
         self.acquired = 0
         self.timeouts = 0
         sim.kill_hooks.append(self._on_kill)
+        sim.exit_hooks.append(self._on_kill)      # a process that ends closes its files: its locks are released
 
     def alias(self, key):
         """Deterministic name for an inode (raw inode numbers differ between runs)."""
@@ -126,8 +127,8 @@ def make_fake_portalocker(world, default_timeout=5.0, default_check_interval=0.2
                     world.contended += 1
                     sim.record("lock-busy", world.rel(self.filename), alias)
                     if start is None:
-                        start = sim.time()
-                    if fail or sim.time() - start >= timeout:
+                        start = sim.monotonic()       # like portalocker: timeouts run on a monotonic clock
+                    if fail or sim.monotonic() - start >= timeout:
                         world.timeouts += 1
                         raise AlreadyLocked("already locked: %s" % self.filename)
                     sim.sleep(check_interval)
